@@ -16,12 +16,12 @@ namespace Mv.Core
 
 /-! ## A. fresh bytes of record lists -/
 
-@[simp] theorem freshBytes_nil : freshBytes [] = 0 := rfl
+@[simp] theorem freshBytes_nil : pendingPayloadBytes [] = 0 := rfl
 @[simp] theorem hasFresh_nil : hasFresh [] = false := rfl
-theorem freshBytes_cons (r : Nat × Entry) (rs) : freshBytes (r :: rs) = r.2.freshBytes + freshBytes rs := rfl
+theorem freshBytes_cons (r : Nat × Entry) (rs) : pendingPayloadBytes (r :: rs) = r.2.freshLen + pendingPayloadBytes rs := rfl
 theorem hasFresh_cons (r : Nat × Entry) (rs) : hasFresh (r :: rs) = (r.2.isFresh || hasFresh rs) := rfl
 
-theorem freshBytes_append (a b : List (Nat × Entry)) : freshBytes (a ++ b) = freshBytes a + freshBytes b := by
+theorem freshBytes_append (a b : List (Nat × Entry)) : pendingPayloadBytes (a ++ b) = pendingPayloadBytes a + pendingPayloadBytes b := by
   induction a with
   | nil => simp
   | cons r rs ih => simp only [List.cons_append, freshBytes_cons, ih]; omega
@@ -31,7 +31,7 @@ theorem hasFresh_append (a b : List (Nat × Entry)) : hasFresh (a ++ b) = (hasFr
   | nil => simp
   | cons r rs ih => simp only [List.cons_append, hasFresh_cons, ih, Bool.or_assoc]
 
-theorem freshBytes_onlyLex (l : List (Nat × Entry)) (h : OnlyLex l) : freshBytes l = 0 := by
+theorem freshBytes_onlyLex (l : List (Nat × Entry)) (h : OnlyLex l) : pendingPayloadBytes l = 0 := by
   induction l with
   | nil => rfl
   | cons r rs ih =>
@@ -46,10 +46,10 @@ theorem hasFresh_onlyLex (l : List (Nat × Entry)) (h : OnlyLex l) : hasFresh l 
     rw [hasFresh_cons, ih (fun x hx => h x (by simp [hx])), hr]; rfl
 
 theorem freshBytes_chunkRecords (a : PutArgs) (pseq n : Nat) (cs : List ChunkArg) (i : Nat) :
-    freshBytes (chunkRecords a pseq n cs i) = chunkBytes cs := by
+    pendingPayloadBytes (chunkRecords a pseq n cs i) = chunkLenSum cs := by
   induction cs generalizing i with
   | nil => rfl
-  | cons c cs ih => simp [chunkRecords, freshBytes_cons, Entry.freshBytes, chunkIns, chunkBytes, ih]
+  | cons c cs ih => simp [chunkRecords, freshBytes_cons, Entry.freshLen, chunkIns, chunkLenSum, ih]
 
 theorem hasFresh_chunkRecords (a : PutArgs) (pseq n : Nat) (cs : List ChunkArg) (i : Nat) :
     hasFresh (chunkRecords a pseq n cs i) = !cs.isEmpty := by
@@ -59,8 +59,8 @@ theorem hasFresh_chunkRecords (a : PutArgs) (pseq n : Nat) (cs : List ChunkArg) 
 
 /-- what one accepted put adds to `pending_payload_bytes` -/
 theorem freshBytes_putRecords (s : Nat) (a : PutArgs) (sup reuse : Option Nat) :
-    freshBytes (putRecords s a sup reuse) = incomingBytes a reuse := by
-  simp [putRecords, freshBytes_cons, Entry.freshBytes, parentIns, freshBytes_chunkRecords, incomingBytes]
+    pendingPayloadBytes (putRecords s a sup reuse) = incomingBytes a reuse := by
+  simp [putRecords, freshBytes_cons, Entry.freshLen, parentIns, freshBytes_chunkRecords, incomingBytes]
 
 theorem hasFresh_putRecords (s : Nat) (a : PutArgs) (sup reuse : Option Nat) :
     hasFresh (putRecords s a sup reuse) = appendsPayload a reuse := by
@@ -75,7 +75,7 @@ theorem incomingBytes_of_not_appends (a : PutArgs) (reuse : Option Nat) (h : app
   | none => simp at h
   | some r =>
     cases hc : a.chunks with
-    | nil => simp [chunkBytes]
+    | nil => simp [chunkLenSum]
     | cons c cs => simp [hc] at h
 
 /-! ## B. stored payloads lie inside the payload region -/
@@ -175,8 +175,8 @@ theorem mkFrame_ext (id : Nat) (e : Ins) (c : String) (off len : Nat) (p : Optio
     cursor exactly when the record places a payload there -/
 theorem applyOne_cap (st : ApSt) (r : Nat × Entry) (st' : ApSt) (h : applyOne st r = some st')
     (hw : Within st.frames st.payloadEnd) :
-    st'.cursor = st.cursor + r.2.freshBytes ∧
-    st'.payloadEnd = (if r.2.isFresh then max st.payloadEnd (st.cursor + r.2.freshBytes) else st.payloadEnd) ∧
+    st'.cursor = st.cursor + r.2.freshLen ∧
+    st'.payloadEnd = (if r.2.isFresh then max st.payloadEnd (st.cursor + r.2.freshLen) else st.payloadEnd) ∧
     Within st'.frames st'.payloadEnd := by
   obtain ⟨sq, e⟩ := r
   cases e with
@@ -197,15 +197,15 @@ theorem applyOne_cap (st : ApSt) (r : Nat × Entry) (st' : ApSt) (h : applyOne s
       | none =>
         simp only [applyOne, hr, hs, Option.some.injEq] at h
         subst h
-        refine ⟨by simp [Entry.freshBytes, hr], by simp [Entry.freshBytes, Entry.isFresh, hr], ?_⟩
+        refine ⟨by simp [Entry.freshLen, hr], by simp [Entry.freshLen, Entry.isFresh, hr], ?_⟩
         apply within_append_single (hw.mono (by simp; omega))
         rw [mkFrame_ext]; simp only; split <;> omega
       | some old =>
         by_cases ho : old < st.frames.length
         · simp only [applyOne, hr, hs, markSuperseded, ho, if_true, Option.some.injEq] at h
           subst h
-          refine ⟨by simp [Entry.freshBytes, hr, ApSt.removeFromIndexes],
-                  by simp [Entry.freshBytes, Entry.isFresh, hr, ApSt.removeFromIndexes], ?_⟩
+          refine ⟨by simp [Entry.freshLen, hr, ApSt.removeFromIndexes],
+                  by simp [Entry.freshLen, Entry.isFresh, hr, ApSt.removeFromIndexes], ?_⟩
           apply within_append_single ((within_modify old _ (markSup_ext _) hw).mono (by simp [ApSt.removeFromIndexes]; omega))
           rw [mkFrame_ext]; simp only [ApSt.removeFromIndexes]; split <;> omega
         · simp [applyOne, hr, hs, markSuperseded, ho] at h
@@ -219,14 +219,14 @@ theorem applyOne_cap (st : ApSt) (r : Nat × Entry) (st' : ApSt) (h : applyOne s
         | none =>
           simp only [applyOne, hr, hg, hs, Option.some.injEq] at h
           subst h
-          refine ⟨by simp [Entry.freshBytes, hr], by simp [Entry.isFresh, hr], ?_⟩
+          refine ⟨by simp [Entry.freshLen, hr], by simp [Entry.isFresh, hr], ?_⟩
           apply within_append_single hw
           rw [mkFrame_ext]; exact hse
         | some old =>
           by_cases ho : old < st.frames.length
           · simp only [applyOne, hr, hg, hs, markSuperseded, ho, if_true, Option.some.injEq] at h
             subst h
-            refine ⟨by simp [Entry.freshBytes, hr, ApSt.removeFromIndexes],
+            refine ⟨by simp [Entry.freshLen, hr, ApSt.removeFromIndexes],
                     by simp [Entry.isFresh, hr, ApSt.removeFromIndexes], ?_⟩
             apply within_append_single (within_modify old _ (markSup_ext _) hw)
             rw [mkFrame_ext]; exact hse
@@ -234,8 +234,8 @@ theorem applyOne_cap (st : ApSt) (r : Nat × Entry) (st' : ApSt) (h : applyOne s
 
 theorem applyLoop_cap (st : ApSt) (recs : List (Nat × Entry)) (st' : ApSt) (h : applyLoop st recs = some st')
     (hw : Within st.frames st.payloadEnd) :
-    st'.cursor = st.cursor + freshBytes recs ∧
-    st'.payloadEnd ≤ (if hasFresh recs then max st.payloadEnd (st.cursor + freshBytes recs) else st.payloadEnd) ∧
+    st'.cursor = st.cursor + pendingPayloadBytes recs ∧
+    st'.payloadEnd ≤ (if hasFresh recs then max st.payloadEnd (st.cursor + pendingPayloadBytes recs) else st.payloadEnd) ∧
     Within st'.frames st'.payloadEnd := by
   induction recs generalizing st with
   | nil =>
@@ -258,7 +258,7 @@ theorem applyLoop_cap (st : ApSt) (recs : List (Nat × Entry)) (st' : ApSt) (h :
 /-- `apply_records`: where the payload end can be afterwards, and what is left alone -/
 theorem applyRecords_cap (m : Mem) (recs : List (Nat × Entry)) (eng : Bool) (m1 : Mem) (δ : Delta)
     (h : applyRecords m recs eng = some (m1, δ)) (hw : Within m.frames m.payloadEnd) :
-    m1.payloadEnd ≤ (if hasFresh recs then max m.payloadEnd (m.dataEnd + freshBytes recs) else m.payloadEnd) ∧
+    m1.payloadEnd ≤ (if hasFresh recs then max m.payloadEnd (m.dataEnd + pendingPayloadBytes recs) else m.payloadEnd) ∧
     Within m1.frames m1.payloadEnd ∧ m1.walSize = m.walSize ∧ m1.ticketCap = m.ticketCap ∧
     m1.pending = m.pending ∧ m1.dirty = m.dirty := by
   unfold applyRecords at h
